@@ -20,7 +20,7 @@ pub fn def() -> PropDef {
     PropDef {
         id: "C13",
         level: "model_checking",
-        rule: "(a) every sequence of length <= d over {remote insert of an entry of a two-author universe, remove-and-recreate the document, ask for the heads and a news verdict}; after the last step get_latest_for_each_author and has_news_for_us(h) for every peer report h in {absent,0,T1,T2,T3}^2 are compared with the heads of the reference replica; (b) AuthorHeads::encode/decode for every set of <= 4 authors with timestamps from {0,1,2,127,128,16383,16384} (equal timestamps included) under every size limit from 1 to unlimited length + 1 and without limit, plus one set of 200 heads (the length prefix of the encoding grows to two bytes at 128) under every limit in the window that keeps 120..136 heads; (c) the head set as a data structure: every sequence of <= 4 inserts over 3 authors x timestamps {0,1,2,u64::MAX}: get/len/iter equal the per-author maximum, and for every split of the sequence into two sets merge is the pointwise maximum, has_news_for counts exactly the strictly newer or unknown authors, encode/decode returns the set; (d) a neighbour's sync report delivered to an idle real LiveActor (on_actor_message -> on_sync_report) for 3 document states x {absent,0,T1,T2,T3}^2 reports x {synced, unsynced document} leads to a dial exactly when it is news; non-trivial (a) = the sequence holds two entries of one author with different timestamps or a removal after an insert, (b) = at least two authors",
+        rule: "(a) every sequence of length <= d over {remote insert of an entry of a two-author universe, remove-and-recreate the document, ask for the heads and a news verdict}; after the last step get_latest_for_each_author and has_news_for_us(h) for every peer report h in {absent,0,T1,T2,T3}^2 are compared with the heads of the reference replica; (b) AuthorHeads::encode/decode for every set of <= 4 authors with timestamps from {0,1,2,127,128,16383,16384} (equal timestamps included) under every size limit from 1 to unlimited length + 1 and without limit, plus one set of 200 heads (the length prefix of the encoding grows to two bytes at 128) under every limit in the window that keeps 120..136 heads; (c) the head set as a data structure: every sequence of <= 4 inserts over 3 authors x timestamps {0,1,2,u64::MAX}: get/len/iter equal the per-author maximum, and for every split of the sequence into two sets merge is the pointwise maximum, has_news_for counts exactly the strictly newer or unknown authors, encode/decode returns the set; (d) a neighbour's sync report delivered to an idle real LiveActor (on_actor_message -> on_sync_report) for 3 document states x {absent,0,T1,T2,T3}^2 reports x {synced, unsynced document} leads to a dial exactly when it is news, also when the neighbour repeats it after the dial it caused was lost; non-trivial (a) = the sequence holds two entries of one author with different timestamps or a removal after an insert, (b) = at least two authors",
         assumptions: &[
             "size limit 0 is excluded: no postcard sequence fits into zero bytes",
             "where several keys attain an author's maximal timestamp any of them is accepted as the head's key",
@@ -486,7 +486,7 @@ fn check_engine_reports(report: &mut Report) {
                     let case = json!({"engine_report": {"extra": extra, "ns": report_ns, "heads": heads}});
                     match catch(|| super::c11::sync_report_dials(extra, report_ns, &heads)) {
                         Err(p) => report.violation("no_panic", json!({"engine": true}), case, format!("panic: {p}"), 0),
-                        Ok((dialed, held)) => {
+                        Ok((dialed, dialed_again, held)) => {
                             let mut ours: BTreeMap<AuthorId, u64> = BTreeMap::new();
                             for (a, t) in held {
                                 let e = ours.entry(a).or_insert(0);
@@ -497,6 +497,15 @@ fn check_engine_reports(report: &mut Report) {
                                 && heads.iter().any(|(a, t)| ours.get(&author_id(*a)).map(|o| t > o).unwrap_or(true));
                             if news {
                                 report.nontrivial += 1;
+                            }
+                            if dialed_again != news {
+                                report.violation(
+                                    "engine_dials_exactly_on_news",
+                                    json!({"dialed": dialed_again, "repeated_report": true}),
+                                    case.clone(),
+                                    format!("report {heads:?} for document {report_ns} repeated after the dial it caused was lost, document holds heads {:?}: dialed={dialed_again}, news={news}", ours.values().collect::<Vec<_>>()),
+                                    0,
+                                );
                             }
                             if dialed != news {
                                 report.violation(
@@ -659,14 +668,14 @@ fn replay(case: &Value) -> anyhow::Result<(bool, String)> {
         let nsx = h["ns"].as_u64().unwrap_or(0) as u8;
         return match catch(|| super::c11::sync_report_dials(&extra, nsx, &heads)) {
             Err(p) => Ok((true, format!("panic: {p}"))),
-            Ok((dialed, held)) => {
+            Ok((dialed, dialed_again, held)) => {
                 let mut ours: BTreeMap<AuthorId, u64> = BTreeMap::new();
                 for (a, t) in held {
                     let e = ours.entry(a).or_insert(0);
                     *e = (*e).max(t);
                 }
                 let news = nsx == 0 && heads.iter().any(|(a, t)| ours.get(&author_id(*a)).map(|o| t > o).unwrap_or(true));
-                Ok((dialed != news, format!("report {heads:?} for document {nsx}; document heads {:?}; dialed={dialed} news={news}\n", ours.values().collect::<Vec<_>>())))
+                Ok((dialed != news || dialed_again != news, format!("report {heads:?} for document {nsx}; document heads {:?}; dialed={dialed}, when repeated after a lost dial={dialed_again}, news={news}\n", ours.values().collect::<Vec<_>>())))
             }
         };
     }
